@@ -51,49 +51,34 @@ type mCase struct {
 
 // ---------------------------------------------------------------- recording reporter
 
+// recReporter records every ErrorReporter call structurally: WHEN it happened (the calls are taken
+// after every step of the scripted run, so a call belongs to the step during which the mock made
+// it) and the ARGUMENTS passed to Errorf. The format string is kept as an informational field only
+// ("reptxt" in the events); no verdict depends on the wording of a report.
 type recReporter struct {
 	mu    sync.Mutex
-	calls []string
-	noexp int // "no expectation" reports so far (each one is a message the async mock finished with)
+	calls [][]string // arguments of every call since the last take, rendered value by value
+	texts []string   // format strings (information only)
+	total int        // calls so far
 	sig   chan struct{}
-}
-
-func classifyReport(format string) string {
-	f := strings.ToLower(format)
-	switch {
-	case strings.Contains(f, "no more expectation"):
-		return "noexp"
-	case strings.Contains(f, "insufficient expectations"):
-		return "insufficient"
-	case strings.Contains(f, "check function"):
-		return "checker"
-	case strings.Contains(f, "partitioner returned"):
-		return "partitioner"
-	case strings.Contains(f, "exhaust all expectations"):
-		return "leftover"
-	case strings.Contains(f, "no expectations set for"):
-		return "unexpected_partition"
-	case strings.Contains(f, "unexpected offset"):
-		return "unexpected_offset"
-	case strings.Contains(f, "no partition consumer was started"):
-		return "not_started"
-	case strings.Contains(f, "errors channel"):
-		return "errors_not_drained"
-	case strings.Contains(f, "messages channel"):
-		return "messages_not_drained"
-	case strings.Contains(f, "unexpected call to"):
-		return "no_metadata"
-	}
-	return "other:" + format
+	argID func(interface{}) string // optional: identity of harness-owned values (scripted errors)
 }
 
 func (r *recReporter) Errorf(format string, args ...interface{}) {
-	r.mu.Lock()
-	k := classifyReport(format)
-	r.calls = append(r.calls, k)
-	if k == "noexp" {
-		r.noexp++
+	vals := make([]string, 0, len(args))
+	for _, a := range args {
+		if r.argID != nil {
+			if id := r.argID(a); id != "" {
+				vals = append(vals, id)
+				continue
+			}
+		}
+		vals = append(vals, fmt.Sprint(a))
 	}
+	r.mu.Lock()
+	r.calls = append(r.calls, vals)
+	r.texts = append(r.texts, format)
+	r.total++
 	r.mu.Unlock()
 	if r.sig != nil {
 		select {
@@ -103,15 +88,16 @@ func (r *recReporter) Errorf(format string, args ...interface{}) {
 	}
 }
 
-func (r *recReporter) take() []string {
+// take returns (arguments, format strings) of the calls made since the previous take.
+func (r *recReporter) take() ([][]string, []string) {
 	r.mu.Lock()
 	defer r.mu.Unlock()
-	out := r.calls
-	r.calls = nil
+	out, txt := r.calls, r.texts
+	r.calls, r.texts = nil, nil
 	if out == nil {
-		out = []string{}
+		out, txt = [][]string{}, []string{}
 	}
-	return out
+	return out, txt
 }
 
 // ---------------------------------------------------------------- producer harness
@@ -122,7 +108,9 @@ func (e *scriptErr) Error() string { return "scripted failure e" + strconv.Itoa(
 
 type checkErr struct{ id int }
 
-func (e *checkErr) Error() string { return "checker failure c" + strconv.Itoa(e.id) }
+const checkErrPrefix = "verif checker failure #"
+
+func (e *checkErr) Error() string { return checkErrPrefix + strconv.Itoa(e.id) }
 
 type partCall struct{ mid, n, p int }
 
@@ -133,6 +121,7 @@ type prodHarness struct {
 	order []partCall    // partitioner invocations in call order (since the last takeOrder)
 	asked int           // partitioner invocations so far
 	chk   map[int][]int // message id -> ids of the expectations whose checker saw it
+	cfail int           // failing-checker invocations so far
 	nexp  int
 	async *AsyncProducer
 	sync  *SyncProducer
@@ -167,7 +156,20 @@ func (p *recPartitioner) RequiresConsistency() bool { return p.inner.RequiresCon
 
 func newProdHarness(c *mCase) *prodHarness {
 	h := &prodHarness{sig: make(chan struct{}, 1024), chk: map[int][]int{}}
-	h.rep = &recReporter{sig: h.sig}
+	h.rep = &recReporter{sig: h.sig, argID: func(a interface{}) string {
+		// the mocks report a failing checker with err.Error(): recognise OUR checker errors by value
+		if str, ok := a.(string); ok && strings.HasPrefix(str, checkErrPrefix) {
+			if _, err := strconv.Atoi(str[len(checkErrPrefix):]); err == nil {
+				return "c" + str[len(checkErrPrefix):]
+			}
+		}
+		if e, ok := a.(error); ok {
+			if id := errID(e); id != "other" {
+				return id
+			}
+		}
+		return ""
+	}}
 	cfg := sarama.NewConfig()
 	cfg.Producer.Return.Successes = c.Rets
 	cfg.Producer.Return.Errors = true
@@ -203,9 +205,12 @@ func newProdHarness(c *mCase) *prodHarness {
 	return h
 }
 
-func (h *prodHarness) noteChk(expID, mid int) {
+func (h *prodHarness) noteChk(expID, mid int, fails bool) {
 	h.mu.Lock()
 	h.chk[mid] = append(h.chk[mid], expID)
+	if fails {
+		h.cfail++
+	}
 	h.mu.Unlock()
 }
 
@@ -218,7 +223,7 @@ func (h *prodHarness) expect(kind string, id int) {
 		cerr = &checkErr{id}
 	}
 	mc := func(msg *sarama.ProducerMessage) error {
-		h.noteChk(id, midOf(msg))
+		h.noteChk(id, midOf(msg), fails)
 		return cerr
 	}
 	vc := func(val []byte) error {
@@ -226,7 +231,7 @@ func (h *prodHarness) expect(kind string, id int) {
 		if err != nil {
 			mid = -1
 		}
-		h.noteChk(id, mid)
+		h.noteChk(id, mid, fails)
 		return cerr
 	}
 	serr := &scriptErr{id}
@@ -284,7 +289,7 @@ func errID(err error) string {
 	if err == errOutOfExpectations {
 		return "noexp"
 	}
-	return "other:" + err.Error()
+	return "other" // any error that is neither scripted by the harness nor the mocks' sentinel (its text is irrelevant)
 }
 
 func newMsg(mid int, topic, key string, mpart int) *sarama.ProducerMessage {
@@ -317,14 +322,19 @@ func guard(d time.Duration, fn func()) string {
 }
 
 // handled = messages the mock has visibly started to handle: it asked the partitioner (the
-// message found an expectation) or reported "no expectation".
+// message found an expectation) or it reported to the ErrorReporter without asking (the message
+// found none). The only other report the producer mocks make while handling a message follows a
+// failing checker of OURS, so those are subtracted (whatever their wording).
 func (h *prodHarness) handled() int {
 	h.mu.Lock()
-	a := h.asked
+	a, cf := h.asked, h.cfail
 	h.mu.Unlock()
 	h.rep.mu.Lock()
 	defer h.rep.mu.Unlock()
-	return a + h.rep.noexp
+	if extra := h.rep.total - cf; extra > 0 {
+		return a + extra
+	}
+	return a
 }
 
 // signal time-outs seen so far in this run: a mock that neither asks the partitioner nor reports
@@ -332,9 +342,19 @@ func (h *prodHarness) handled() int {
 // are then picked up by a later event of the case; Close waits for the mock's goroutine anyway).
 var slowSignals int
 
-// waitHandled waits until the mock has started to handle `target` messages in total.
-// Returns false on time-out.
-func (h *prodHarness) waitHandled(target int) bool {
+// pending returns the number of expectations the async mock still holds.
+func (h *prodHarness) pending() int {
+	h.async.l.Lock()
+	defer h.async.l.Unlock()
+	return len(h.async.expectations)
+}
+
+// waitHandled waits until the mock has started to handle `target` messages in total (k of them
+// were just submitted while the mock held n0 expectations). Returns false on time-out, i.e. when
+// the mock neither asked its partitioner nor reported for some message; then it falls back on the
+// mock's own state: the input channel must be empty and min(n0, k) expectations must be gone
+// (popping the expectation is the first thing the mock does for a message, under its mutex).
+func (h *prodHarness) waitHandled(target, n0, k int) bool {
 	d := 5 * time.Second // never reached by a mock that asks its partitioner / reports, however loaded the machine is
 	if slowSignals >= 2 {
 		d = time.Millisecond
@@ -345,6 +365,15 @@ func (h *prodHarness) waitHandled(target int) bool {
 		case <-h.sig:
 		case <-deadline:
 			slowSignals++
+			if h.async != nil {
+				if k > n0 {
+					k = n0
+				}
+				for i := 0; i < 40000 && (len(h.async.input) > 0 || h.pending() > n0-k); i++ {
+					time.Sleep(50 * time.Microsecond)
+				}
+				time.Sleep(500 * time.Microsecond)
+			}
 			return false
 		}
 	}
@@ -417,10 +446,10 @@ func (h *prodHarness) send(rec *vRec, mid int, op mOp) {
 	outs := [][]interface{}{}
 	var bad string
 	if h.async != nil {
-		target := h.handled() + 1
+		target, n0 := h.handled()+1, h.pending()
 		bad = guard(5*time.Second, func() { h.async.Input() <- msg })
 		if bad == "" {
-			h.waitHandled(target)
+			h.waitHandled(target, n0, 1)
 			h.barrier()
 		}
 		outs = h.drain()
@@ -439,8 +468,9 @@ func (h *prodHarness) send(rec *vRec, mid int, op mOp) {
 			pc = []int{c.n, c.p}
 		}
 	}
+	rep, txt := h.rep.take()
 	rec.Ev("send", kv{"mid": mid, "topic": op.Topic, "key": op.Key, "mpart": op.Mpart, "outs": outs,
-		"mp": int(msg.Partition), "pcall": pc, "chk": h.chkOf(mid), "rep": h.rep.take(), "err": bad})
+		"mp": int(msg.Partition), "pcall": pc, "chk": h.chkOf(mid), "rep": rep, "reptxt": txt, "err": bad})
 }
 
 func (h *prodHarness) batch(rec *vRec, first int, c *mCase, n int) {
@@ -464,7 +494,8 @@ func (h *prodHarness) batch(rec *vRec, first int, c *mCase, n int) {
 		after = append(after, []int{first + i, int(m.Partition), int(m.Offset)})
 	}
 	h.takeOrder()
-	rec.Ev("batch", kv{"n": n, "msgs": desc, "ret": errID(err), "after": after, "rep": h.rep.take(), "err": bad})
+	rep, txt := h.rep.take()
+	rec.Ev("batch", kv{"n": n, "msgs": desc, "ret": errID(err), "after": after, "rep": rep, "reptxt": txt, "err": bad})
 }
 
 func (h *prodHarness) closeMock(rec *vRec) {
@@ -474,7 +505,8 @@ func (h *prodHarness) closeMock(rec *vRec) {
 	} else {
 		bad = guard(5*time.Second, func() { _ = h.sync.Close() })
 	}
-	rec.Ev("close", kv{"outs": h.drain(), "rep": h.rep.take(), "err": bad})
+	rep, txt := h.rep.take()
+	rec.Ev("close", kv{"outs": h.drain(), "rep": rep, "reptxt": txt, "err": bad})
 }
 
 // csend submits all messages from concurrent goroutines (after the expectations were set).
@@ -486,7 +518,10 @@ func (h *prodHarness) csend(rec *vRec, ops []mOp) {
 		msgs[i] = newMsg(i+1, op.Topic, op.Key, op.Mpart)
 		desc = append(desc, []interface{}{i + 1, op.Topic, op.Key, op.Mpart})
 	}
-	target := h.handled() + n
+	target, n0 := h.handled()+n, 0
+	if h.async != nil {
+		n0 = h.pending()
+	}
 	outs := make([][]interface{}, 0, n)
 	var omu sync.Mutex
 	start := make(chan struct{})
@@ -508,7 +543,7 @@ func (h *prodHarness) csend(rec *vRec, ops []mOp) {
 	}
 	bad := guard(10*time.Second, func() { close(start); wg.Wait() })
 	if h.async != nil && bad == "" {
-		h.waitHandled(target)
+		h.waitHandled(target, n0, n)
 		h.barrier()
 		outs = h.drain()
 	}
@@ -520,8 +555,9 @@ func (h *prodHarness) csend(rec *vRec, ops []mOp) {
 	for i, m := range msgs {
 		mps = append(mps, []interface{}{i + 1, int(m.Partition), h.chkOf(i + 1)})
 	}
+	rep, txt := h.rep.take()
 	omu.Lock()
-	rec.Ev("csend", kv{"msgs": desc, "order": order, "outs": outs, "mps": mps, "rep": h.rep.take(), "err": bad})
+	rec.Ev("csend", kv{"msgs": desc, "order": order, "outs": outs, "mps": mps, "rep": rep, "reptxt": txt, "err": bad})
 	omu.Unlock()
 }
 
@@ -652,7 +688,7 @@ func runConsumerCase(rec *vRec, c *mCase) {
 					if _, ok := err.(sarama.ConfigurationError); ok {
 						ret = "already"
 					} else {
-						ret = "other:" + err.Error()
+						ret = "other"
 					}
 				}
 			case "readmsg":
@@ -690,12 +726,12 @@ func runConsumerCase(rec *vRec, c *mCase) {
 					if err == errPartitionConsumerNotStarted {
 						ret = "notstarted"
 					} else {
-						ret = "other:" + err.Error()
+						ret = "other"
 					}
 				}
 			case "closeall":
 				if err := cons.Close(); err != nil {
-					ret = "other:" + err.Error()
+					ret = "other"
 				}
 			}
 		})
@@ -712,8 +748,9 @@ func runConsumerCase(rec *vRec, c *mCase) {
 				}
 			}
 		}
+		reps, txt := rep.take()
 		rec.Ev("cop", kv{"op": op.Op, "p": op.P, "off": op.Off, "w": op.W, "id": op.Id, "ret": ret, "val": val,
-			"errs": errs, "hwm": hwm, "hwms": hwms, "rep": rep.take(), "err": bad})
+			"errs": errs, "hwm": hwm, "hwms": hwms, "rep": reps, "reptxt": txt, "err": bad})
 	}
 	rec.Ev("cend", kv{"n": len(c.Ops)})
 }
